@@ -55,7 +55,7 @@ def octabox(sub=0):
     return dict(bitmap=bitmap, diag=(0, 255, 0, 255), subs=subs)
 
 
-def s_full(version=5, glat_version=3, compress=(), rtl=False, with_collision=True, subboxes=True, glyf=True, extra_attr_glyphs=0, dense_attrs=False, line_ends=False, cmap_edges=False, pass_bits=False, bad_glyph=None, bidi_pass=False, feat_pconstraint=False, just_step=1, many_pseudos=False, no_just=False, just_attached=False, bad_gid_char=None, lb_gid=0):
+def s_full(version=5, glat_version=3, compress=(), rtl=False, with_collision=True, subboxes=True, glyf=True, extra_attr_glyphs=0, dense_attrs=False, line_ends=False, cmap_edges=False, pass_bits=False, bad_glyph=None, bidi_pass=False, feat_pconstraint=False, just_step=1, many_pseudos=False, no_just=False, just_attached=False, bad_gid_char=None, lb_gid=0, excl_glyph=False):
     names = ['notdef', 'space', 'a', 'b', 'c', 'd', 'x', 'y', 'z', 'acute', 'grave', 'pseudo', 'astral', 'lig', 'e', 'f']
     glyphs = []
     for i, n in enumerate(names):
@@ -110,10 +110,12 @@ def s_full(version=5, glat_version=3, compress=(), rtl=False, with_collision=Tru
         Rule(0, [S('d')], A('PUSH_BYTE', 40, 'ATTR_SET', SLAT['advY'], 'PUSH_BYTE', 0xEC, 'ATTR_SET', SLAT['shiftY'], 'NEXT', 'RET_ZERO'), name='d {adv.y=40; shift.y=-20}'),
         Rule(0, [S('c'), S('d')], A('PUSH_SHORT', 3, 9, 'ATTR_SET', SLAT['advX'], 'NEXT', 'NEXT', 'RET_ZERO'), name='c {adv.x=777} / _ d   (the advance of c depends on its context)'),
     ])
+    if excl_glyph:          # every attached mark names glyph 'e' as its collision exclusion glyph: the collision pass consults a glyph that need not occur in the text
+        p2b = dict(maxloop=2, rules=[Rule(0, [marks], A('PUSH_BYTE', G['e'], 'ATTR_SET', SLAT['colExclGlyph'], 'PUSH_BYTE', 20, 'ATTR_SET', SLAT['colExclOffx'], 'PUSH_BYTE', 0xF6, 'ATTR_SET', SLAT['colExclOffy'], 'NEXT', 'RET_ZERO'), name='mark {collision.exclude.glyph = e}')])          # its own positioning pass, after the attaching one
     if just_attached:          # justification width set by RULES: on an attached glyph that keeps its advance, and on a base
         p2['rules'] += [Rule(0, [S('e'), S('b')], A('NEXT', 'PUSH_BYTE', 0xFF, 'ATTR_SET_SLOT', SLAT['attTo'], 'PUSH_SHORT', 1, 44, 'ATTR_SET', SLAT['attX'], 'PUSH_BYTE', 40, 'ATTR_SET', SLAT['jWidth'], 'NEXT', 'RET_ZERO'), name='e b > b attached to e {justify.width=40}'),
                         Rule(0, [S('e'), S('e')], A('PUSH_BYTE', 30, 'ATTR_SET', SLAT['jWidth'], 'NEXT', 'NEXT', 'RET_ZERO'), name='e {justify.width=30} / _ e')]
-    passes = [p0, p1, p2]
+    passes = [p0, p1, p2] + ([p2b] if excl_glyph else [])
     flags = 1 if line_ends else 0          # bit 0: line-end contextuals (gr_seg_justify adds temporary line-end slots)
     if with_collision and glat_version >= 3:
         passes.append(dict(maxloop=1, flags=1, rules=[]))
@@ -204,7 +206,7 @@ def write_all(outdir):
     fonts = {'s_min': s_min(), 's_full': s_full(), 's_full_z': s_full(compress=('Silf', 'Glat')), 's_full_v3': s_full(version=3, glat_version=1, with_collision=False),
              's_full_v4': s_full(version=4, glat_version=2, with_collision=False), 's_full_rtl': s_full(rtl=True), 's_full_nosub': s_full(subboxes=False),
              's_full_zs': s_full(compress=('Silf',)), 's_full_zg': s_full(compress=('Glat',)),
-             's_full_noglyf': s_full(glyf=False), 's_full_extra': s_full(extra_attr_glyphs=3), 's_full_dense': s_full(dense_attrs=True), 's_full_le': s_full(line_ends=True), 's_full_le_badlb': s_full(line_ends=True, lb_gid=999), 's_full_cmapedge': s_full(cmap_edges=True), 's_full_pb': s_full(pass_bits=True, feat_pconstraint=True), 's_full_step': s_full(just_step=3), 's_full_pseudos': s_full(many_pseudos=True), 's_full_nojust': s_full(no_just=True), 's_full_jatt': s_full(just_attached=True), 's_full_badgid': s_full(no_just=True, bad_gid_char=0x64), 's_full_rtl_jatt': s_full(rtl=True, just_attached=True), 's_twoclass': s_twoclass(), 's_full_unsorted': s_full(), 's_full_bidi': s_full(bidi_pass=True), 's_full_rtl_bidi': s_full(rtl=True, bidi_pass=True), 's_full_badglyph': s_full(bad_glyph='e'), 's_full_badlast': s_full(bad_glyph='f'), 's_full_rtl_le': s_full(rtl=True, line_ends=True)}
+             's_full_noglyf': s_full(glyf=False), 's_full_extra': s_full(extra_attr_glyphs=3), 's_full_dense': s_full(dense_attrs=True), 's_full_le': s_full(line_ends=True), 's_full_le_badlb': s_full(line_ends=True, lb_gid=999), 's_full_cmapedge': s_full(cmap_edges=True), 's_full_pb': s_full(pass_bits=True, feat_pconstraint=True), 's_full_step': s_full(just_step=3), 's_full_pseudos': s_full(many_pseudos=True), 's_full_nojust': s_full(no_just=True), 's_full_jatt': s_full(just_attached=True), 's_full_excl': s_full(excl_glyph=True), 's_full_badgid': s_full(no_just=True, bad_gid_char=0x64), 's_full_rtl_jatt': s_full(rtl=True, just_attached=True), 's_twoclass': s_twoclass(), 's_full_unsorted': s_full(), 's_full_bidi': s_full(bidi_pass=True), 's_full_rtl_bidi': s_full(rtl=True, bidi_pass=True), 's_full_badglyph': s_full(bad_glyph='e'), 's_full_badlast': s_full(bad_glyph='f'), 's_full_rtl_le': s_full(rtl=True, line_ends=True)}
     fonts.update(feat_family())
     index = {}
     for name, spec in fonts.items():
